@@ -1,7 +1,9 @@
 #!/bin/sh
-# usage: ./seedtest.sh <seed-id> [property-id ...]   applies the seeded change to /repo, runs the checks, undoes it
+# usage: ./seedtest.sh <seed-dir-name> [property-id ...]   applies the seeded change to /repo, runs the checks, undoes it
+# (seed C07b belongs to property C07: the property defaults to the name without a round suffix)
 id=$1; shift
-props=${*:-$id}
+prop=$(echo $id | sed 's/[a-z]*$//')
+props=${*:-$prop}
 cd /verif
 git -C /repo diff --quiet || { echo "/repo has local modifications; refusing"; exit 3; }
 git -C /repo apply /verif/seeded/$id/patch.diff || exit 3
